@@ -152,6 +152,26 @@ var entries = []*entry{
 		err := pretty.WriteJSON(w, v)
 		return w.buf, err
 	}},
+	// the remaining exported methods, with default options
+	{name: "Writer.MustWrite()", fixed: true, stream: true, mem: "oj.JSON()", call: func(v any, _ *optVec, w *sink) ([]byte, error) {
+		wr := oj.Writer{Options: ojg.DefaultOptions}
+		wr.MustWrite(w, v)
+		return w.buf, nil
+	}},
+	{name: "pretty.Writer.Encode()", fixed: true, pretty: true, call: func(v any, _ *optVec, _ *sink) ([]byte, error) {
+		pw := pretty.Writer{Options: ojg.DefaultOptions, Width: 80, MaxDepth: 3}
+		return append([]byte{}, pw.Encode(v)...), nil
+	}},
+	{name: "pretty.Writer.Marshal()", fixed: true, pretty: true, call: func(v any, _ *optVec, _ *sink) ([]byte, error) {
+		pw := pretty.Writer{Options: ojg.DefaultOptions, Width: 80, MaxDepth: 3}
+		b, err := pw.Marshal(v)
+		return append([]byte{}, b...), err
+	}},
+	{name: "pretty.Writer.Write()", fixed: true, pretty: true, stream: true, mem: "pretty.JSON()", call: func(v any, _ *optVec, w *sink) ([]byte, error) {
+		pw := pretty.Writer{Options: ojg.DefaultOptions, Width: 80, MaxDepth: 3}
+		err := pw.Write(w, v)
+		return w.buf, err
+	}},
 }
 
 var (
